@@ -88,6 +88,24 @@ def make_area_two(aname, narrow_second=False):
             ctx.le(f"q_not_above_area_maximum/{i}", q2.values[i], fl[i, 1] + TOL)
     return fn
 
+def make_area_and_saturation(aname, q_prio):
+    """both a capability area and saturate_sn_mva are given: whether or not the operating point already lies inside the area, the apparent
+    power must end within the saturation limit"""
+    def fn(ctx):
+        dc = ctx.load("pandapower.control.controller.DERController.der_control")
+        pa = ctx.load("pandapower.control.controller.DERController.PQVAreas")
+        c = _ctrl(ctx, dc, AREAS[aname](pa), True, q_prio)
+        p = _series(ctx, [ctx.var("p", 0., 1.5)])
+        q = _series(ctx, [ctx.var("q", -1.5, 1.5)])
+        vm = _series(ctx, [ctx.var("vm", 0.5, 1.5)])
+        c.sn_mva = _series(ctx, [ctx.var("sn", 0.1, 10.)])
+        c.saturate_sn_mva = _series(ctx, [ctx.var("sat", 0.05, 10.)])
+        p2, q2 = c._saturate(p.copy(), q.copy(), vm)
+        s = c.saturate_sn_mva.values[0] / c.sn_mva.values[0]
+        ctx.le("apparent_power_within_saturation", p2.values[0] * p2.values[0] + q2.values[0] * q2.values[0], s * s + 1e-9)
+        ctx.le("p_stays_non_negative", 0.0, p2.values[0])
+    return fn
+
 
 def make_area(aname):
     def fn(ctx):
@@ -237,6 +255,8 @@ def instances(tier):
         out += [Inst(f"saturate_sn_qprio{int(qp)}_two", make_saturate(qp, 2), nvars=24, samples=2, meta=dict(kernel="_saturate_sn_mva_step", q_prio=qp, n=2)) for qp in (True, False)]
     for a in AREAS:
         out.append(Inst(f"area_{a}", make_area(a), nvars=12, samples=3, raises=(ValueError,), meta=dict(kernel="_saturate+area", area=a)))
+    out += [Inst(f"area_STATCOM_and_saturation_qprio{int(qp)}", make_area_and_saturation("STATCOM", qp), nvars=16, samples=3, raises=(ValueError,),
+                 meta=dict(kernel="_saturate+area+sn", area="STATCOM", q_prio=qp)) for qp in (True, False)]
     out.append(Inst("area_STATCOM_two_ders", make_area_two("STATCOM"), nvars=16, samples=3, raises=(ValueError,), meta=dict(kernel="_saturate+area", area="STATCOM", n=2)))
     if tier == "thorough":
         out.append(Inst("area_4120V2_two_ders", make_area_two("4120V2", narrow_second=True), nvars=16, samples=2, raises=(ValueError,), max_paths=20000, timeout_ms=30000,
@@ -253,4 +273,4 @@ LEVEL_TEXT = ("Bounded model checking of the DER saturation kernels: the real _s
               "area classes run on pandas Series with symbolic p, q, vm; z3 shows for every value that the apparent power respects the "
               "saturation and that the reactive power ends inside the area's own q_flexibility (band edges are ordinary symbolic cases).")
 LEVEL_NOTE = ("Trusted: pandas boolean-mask indexing on object Series, shims for clip/sign/sqrt/interp (validated against numpy every run), z3. "
-              "Bounds: one DER per call (two in thorough), the non-polygon areas.")
+              "Bounds: one DER per call (two in thorough), polygon areas with shapely replaced by a geometric contract stub.")
